@@ -24,7 +24,7 @@ from gens.jose import ALL_JWS
 from ref import jws as rjws, jwe as rjwe, b64 as rb, keys as rk, selftest
 
 LEVEL = "exploration"
-RULE = ("(a) operations from a pool of 73 (sign/verify HS256 with two different keys, ES256, EdDSA, RS256 compact and JSON, key-set signing "
+RULE = ("(a) operations from a pool of 76 (sign/verify HS256 with two different keys, ES256, EdDSA, RS256 compact and JSON, key-set signing "
         "with random pick, A128KW / ECDH-ES / dir encrypt and decrypt, jwt encode/decode, thumbprint, ensure_kid, KeySet([...]), "
         "KeySet.as_dict, public export, PEM export, per-call allow-lists, caller registries, PBES2 with the right / a wrong password, CBC-HS / ChaCha20 / GCMKW / ECDH-1PU messages, compressed (DEF) messages with two different plaintexts, keys carrying use / key_ops) run pairwise in two threads over shared Key / KeySet / registry objects rebuilt from "
         "stored material for every schedule (lazy initialisation is raced every time); the tracer switches threads only at the "
@@ -117,7 +117,7 @@ class Graph:
     """Shared objects, rebuilt from stored material (so lazily initialised state is fresh). Only the objects the operations need are
     built (an RSA PEM import costs 50 ms of key checking)."""
 
-    ALL = ("oct1", "oct2", "oct16", "ec", "ec2", "ed", "rsa", "ecpub", "ks", "reg_jws", "reg_jwe", "ec_sig", "pp_a", "pp_b")
+    ALL = ("oct1", "oct2", "oct16", "ec", "ec2", "ed", "rsa", "ecpub", "ks", "reg_jws", "reg_jwe", "reg_jwe2", "ec_sig", "pp_a", "pp_b")
 
     def __init__(self, needs=None):
         from joserfc.jwk import OctKey, ECKey, OKPKey, RSAKey, KeySet
@@ -156,6 +156,9 @@ class Graph:
             self.reg_jws = jws.JWSRegistry(algorithms=["HS256", "ES256", "EdDSA", "RS256"])
         if "reg_jwe" in needs:
             self.reg_jwe = jwe.JWERegistry(algorithms=["A128KW", "dir", "ECDH-ES", "A128GCM"])
+        if "reg_jwe2" in needs:
+            # one long-lived registry for algorithm families that each define header parameters of their own
+            self.reg_jwe2 = jwe.JWERegistry(algorithms=["ECDH-ES", "PBES2-HS256+A128KW", "A128GCMKW", "A128GCM"])
 
 
 _NEEDS = {}
@@ -418,6 +421,22 @@ def op_sign_es_list(G):
     return _ref_verify(jws.serialize_compact({"alg": "ES256"}, b"msg-es-list", G.ec2, algorithms=["ES256", "ES384"]), "ec2", b"msg-es-list")
 
 
+def op_reg2_ecdh_with_foreign_member(G):
+    from joserfc import jwe
+    # p2c belongs to PBES2: with ECDH-ES it is an unregistered member and the call fails, whatever else the shared registry is doing
+    return _ref_decrypt(jwe.encrypt_compact({"alg": "ECDH-ES", "enc": "A128GCM", "p2c": 8}, b"secret text", G.ecpub, registry=G.reg_jwe2), "ec")[:2]
+
+
+def op_reg2_pbes2(G):
+    from joserfc import jwe
+    return _ref_decrypt(jwe.encrypt_compact({"alg": "PBES2-HS256+A128KW", "enc": "A128GCM", "p2c": 8}, b"secret text", G.oct1, registry=G.reg_jwe2), "oct1")[:2]
+
+
+def op_reg2_gcmkw_with_foreign_member(G):
+    from joserfc import jwe
+    return _ref_decrypt(jwe.encrypt_compact({"alg": "A128GCMKW", "enc": "A128GCM", "apu": "QWxpY2U"}, b"secret text", G.oct16, registry=G.reg_jwe2), "oct16")[:2]
+
+
 def op_encrypt_pbes2(G):
     from joserfc import jwe
     t = jwe.encrypt_compact({"alg": "PBES2-HS256+A128KW", "enc": "A128GCM", "p2c": 8}, b"secret text", G.oct1, algorithms=["PBES2-HS256+A128KW", "A128GCM"])
@@ -654,7 +673,7 @@ def op_pp_sign_b(G):
 
 
 OPS = {f.__name__[3:]: f for f in [
-    op_encrypt_pbes2, op_shared_keyset_verify_ec, op_shared_keyset_verify_oct, op_pp_kid_a, op_pp_kid_b, op_pp_sign_b, op_encrypt_json_kw, op_encrypt_json_kw_b, op_decrypt_c20p_list_and_registry, op_decrypt_c20p_registry_only,
+    op_reg2_ecdh_with_foreign_member, op_reg2_pbes2, op_reg2_gcmkw_with_foreign_member, op_encrypt_pbes2, op_shared_keyset_verify_ec, op_shared_keyset_verify_oct, op_pp_kid_a, op_pp_kid_b, op_pp_sign_b, op_encrypt_json_kw, op_encrypt_json_kw_b, op_decrypt_c20p_list_and_registry, op_decrypt_c20p_registry_only,
     op_encrypt_kw_zip, op_encrypt_kw_zip_b, op_decrypt_kw_zip, op_decrypt_kw_zip_b,
     op_encrypt_kw_foreign_header, op_decrypt_pbes2_default_registry, op_sigkey_first_use_sign, op_sigkey_encrypt_refused, op_sigkey_keyset, op_sigkey_export,
     op_read_kid, op_custom_registry_sign, op_sign_unregistered_header, op_custom_jwe_registry, op_encrypt_unregistered_header,
@@ -677,6 +696,7 @@ TOUCH = {"sigkey_first_use_sign": {"ec_sig"}, "sigkey_encrypt_refused": {"ec_sig
          # per-call allow-lists: whatever the library keeps between calls for them is shared
          "verify_ed_allowed": {"allow-list"}, "verify_hs256_list": {"allow-list"}, "verify_hs512_under_hs256_list": {"allow-list"}, "verify_hs512_list": {"allow-list"},
          "sign_es_list": {"allow-list"}, "decrypt_pbes2_right": {"PBES2"}, "decrypt_pbes2_wrong": {"PBES2"}, "encrypt_pbes2": {"PBES2", "A128GCM"},
+         "reg2_ecdh_with_foreign_member": {"reg_jwe2"}, "reg2_pbes2": {"reg_jwe2"}, "reg2_gcmkw_with_foreign_member": {"reg_jwe2"},
          "verify_hs_registry_and_list": {"reg_jws"}, "verify_rs": {"reg_jws"}, "verify_es_registry": {"reg_jws"},
          "encrypt_kw_cbc": {"A128CBC-HS256", "A128KW"}, "decrypt_kw_cbc": {"A128CBC-HS256", "A128KW"},
          "encrypt_kw_c20p": {"C20P", "A128KW"}, "decrypt_kw_c20p": {"C20P", "A128KW"},
@@ -695,7 +715,7 @@ CORE = ["sign_hs_k1", "sign_hs_k2", "verify_hs_k1", "verify_hs_wrongkey", "sign_
         "verify_hs256_list", "verify_hs512_under_hs256_list", "verify_hs512_list", "decrypt_pbes2_right", "decrypt_pbes2_wrong",
         "verify_hs_registry_and_list", "verify_es_registry", "encrypt_kw_cbc", "decrypt_kw_cbc", "decrypt_kw_b", "decrypt_kw_cbc_b",
         "decrypt_kw_c20p", "decrypt_kw_c20p_b", "encrypt_gcmkw", "encrypt_1pu_kw", "decrypt_1pu_kw", "decrypt_1pu_kw_b",
-        "encrypt_kw_zip", "encrypt_kw_zip_b", "decrypt_kw_zip", "decrypt_kw_zip_b", "pp_kid_a", "pp_kid_b", "pp_sign_b", "encrypt_pbes2", "shared_keyset_verify_ec", "shared_keyset_verify_oct",
+        "encrypt_kw_zip", "encrypt_kw_zip_b", "decrypt_kw_zip", "decrypt_kw_zip_b", "pp_kid_a", "pp_kid_b", "pp_sign_b", "encrypt_pbes2", "reg2_ecdh_with_foreign_member", "reg2_pbes2", "reg2_gcmkw_with_foreign_member", "shared_keyset_verify_ec", "shared_keyset_verify_oct",
         "encrypt_json_kw", "encrypt_json_kw_b", "decrypt_c20p_list_and_registry", "decrypt_c20p_registry_only"]
 
 
